@@ -493,6 +493,19 @@ def gen_case_sub(rng, tier):
                 c['cond'] = ['and', c['cond'], ['or', cmp_, extra, 'fn'], 'fn']
         else:
             c['cond'] = cmp_ if rng.random() < 0.4 else ['and', c['cond'], cmp_, 'fn'] if rng.random() < 0.6 else ['and', cmp_, c['cond'], 'fn']
+    elif rng.random() < 0.25:
+        # the(...) in CONDITION position, correlated with the enclosing query and asked once per row of it: the peer of the outer
+        # variable if it also meets a further condition - one solution or none (never two: i ranges over every object and is
+        # pinned to the peer) -, as the left branch of a disjunction, the outer variable bound by an earlier conjunct
+        i = 8
+        nobj = len(c['heap'])
+        outer = rng.choice([d[0] for d in c['doms']])
+        c['doms'] = c['doms'] + [[i, list(range(nobj))]]
+        ci = ['and', ['cmp', '==', ['var', i], ['map', ['f', F['peer']], ['var', outer]]],
+              ['cmp', rng.choice(OPS), ['map', ['f', F[rng.choice('ab')]], ['var', i]], ['lit', rng.randint(0, 2)]], 'fn']
+        sub = ['sub', [['var', i]], ci, 'the']
+        bind = ['cmp', '>=', ['map', ['f', F['a']], ['var', outer]], ['lit', 0]]
+        c['cond'] = ['and', bind, ['or', sub, c['cond'], 'fn'], 'fn']
     used = cond_keys(c['cond'], set())
     from qcase import term_keys
     for t in c['sel']:
